@@ -485,7 +485,7 @@ def run(ctx, out):
         mt = model.ask('metaedit', mio.model_tokens(h, NAMES, False, intern))
         stats['histories'] += 1
         stats['ops'] += len(h)
-        if mt and mt[-1] == 1:
+        if len(mt) > 1 and mt[-2] == 1:
             deferred.append(case)
             continue
         if deferred and ctx.rng.random() < 0.03:
